@@ -76,6 +76,9 @@ def extract(flavour='dev', repo=None, keep_json=None):
             doc = json.load(f)
         if doc.get('crate') != 'pc_keyboard':
             raise FactError('fact file is for crate %r' % doc.get('crate'))
+        # a build script can make what is compiled depend on the build environment in ways no rustc fact shows
+        doc['_build_script'] = os.path.exists(os.path.join(repo, 'build.rs')) or bool(
+            __import__('re').search(r'(?m)^\s*build\s*=', open(os.path.join(repo, 'Cargo.toml')).read()))
         doc['_extract_s'] = round(time.time() - t0, 2)
         doc['_flavour'] = flavour
         doc['_repo'] = repo
